@@ -45,6 +45,8 @@ func init() {
 			{ID: "C15-R22", Title: "equality is not inherited from an embedded object type", Floor: 1, Run: equalityIsNotInherited},
 			{ID: "C15-R23", Title: "sorted results come out of the stable sort", Floor: 1, Run: sortedResultsComeOutOfTheStableSort},
 			{ID: "C15-R24", Title: "the equality walk compares the sizes itself", Floor: 1, Run: theWalkComparesTheSizesItself},
+			{ID: "C15-R25", Title: "containers say themselves whether they are empty", Floor: 5, Run: containersSayThemselvesWhetherTheyAreEmpty},
+			{ID: "C15-R26", Title: "membership does not round the probe", Floor: 1, Run: membershipDoesNotRoundTheProbe},
 		},
 	})
 }
